@@ -112,6 +112,24 @@ class C11(object):
             return {"entry": "SparseScan.cplabel", "ns": ns, "nf": nf, "kind": "scan", "frames": frames,
                     "threshold": rnd.choice([0.0, 5.0, 12.0]), "countall": rnd.random() < 0.5,
                     "cfg": enginea.draw_cfg(rnd, max_team=4), "gstyle": 0, "image": [], "cut": 0.0}
+        if rnd.random() < 0.05:
+            # one labelimage object labels a series of frames (its two label images are swapped from frame to frame); some
+            # frames have nothing above the threshold: all zero, dark only, or their maximum exactly at the threshold
+            ns, nf = rnd.choice([3, 5, 8, 12]), rnd.choice([3, 4, 7, 13])
+            th = rnd.choice([0.0, 5.0, 12.0])
+            frames = []
+            for _ in range(rnd.randint(2, 6)):
+                kind, im = make_image(rnd, g, ns, nf)
+                u = rnd.random()
+                if u < 0.15:
+                    im[:] = 0
+                elif u < 0.3:
+                    im = np.minimum(im, np.float32(th))        # maximum exactly at the threshold (or below)
+                elif u < 0.4:
+                    im[:] = th - 1
+                frames.append(im.ravel().tolist())
+            return {"entry": "labelimage.labelpeaks", "ns": ns, "nf": nf, "kind": "labelimage", "frames": frames, "threshold": th,
+                    "merge": rnd.random() < 0.8, "cfg": enginea.draw_cfg(rnd, max_team=4), "gstyle": 0, "image": [], "cut": 0.0}
         r = rnd.random()
         if r < 0.006:
             ns, nf = rnd.choice([(260, 260), (258, 300)])  # > 16384 provisional labels at native capacity
@@ -153,6 +171,47 @@ class C11(object):
         d = {k: desc[k] for k in ("ns", "nf", "kind", "threshold", "cut", "cfg")}
         d["image_first_row"] = desc["image"][:desc["nf"]]
         return d
+
+    def exec_labelimage(self, desc, ctx):
+        import io, contextlib
+        from ImageD11 import labelimage
+        sim = ctx.sim
+        cfg, th = desc["cfg"], desc["threshold"]
+        ns, nf = desc["ns"], desc["nf"]
+        ims = [np.array(f, np.float32).reshape(ns, nf) for f in desc["frames"]]
+        enginea.apply_cfg(sim, cfg, strict=0, track_conflicts=0, step_cap=50000000)
+        sim.begin_run()
+        viol = None
+        digs = []
+        with contextlib.redirect_stdout(io.StringIO()):
+            lab = labelimage.labelimage((ns, nf), fileout=io.StringIO(), sptfile=io.StringIO())
+            for k, im in enumerate(ims):
+                lab.peaksearch(im, th, float(k))
+                ref, nref = scipy.ndimage.label(im > np.float32(th), S8)
+                got = np.array(lab.blim)
+                digs.append(enginea.sha(got, lab.npk))
+                if lab.npk != nref:
+                    viol = {"class": "count-differs", "key": "labelimage.labelpeaks:count-differs",
+                            "detail": "frame %d of %d on one labelimage: npk %d, the frame has %d components" % (k, len(ims), lab.npk, nref)}
+                    break
+                if ((got != 0) != (ref != 0)).any() or canon(got.ravel()) != canon(ref.ravel()):
+                    viol = {"class": "partition-differs", "key": "labelimage.labelpeaks:partition-differs",
+                            "detail": "frame %d of %d on one labelimage (%d components, maximum %g, threshold %g): the label image does not "
+                                      "hold the components of this frame (%d pixels labelled, %d above threshold)" %
+                                      (k, len(ims), nref, float(im.max()), th, int((got != 0).sum()), int((ref != 0).sum()))}
+                    break
+                if desc.get("merge", True):
+                    lab.mergelast()
+            if viol is None:
+                lab.finalise()
+        st = sim.stats()
+        meas = enginea.run_measures(st, cfg)
+        meas["image_kind"] = {"labelimage": 1}
+        meas["dset_capacity"] = {cfg.get("dset_cap", 0) or 16384: 1}
+        meas["dset_grew(realloc)"] = 1 if (meas["realloc_moved"] + meas["realloc_stay"]) > 0 else 0
+        meas["concurrent_frame_pairs"] = 0
+        return {"digest": enginea.sha(st["digest"], digs), "sig": enginea.sha(desc["frames"], th), "nontrivial": True,
+                "viol": viol, "measures": meas}
 
     def exec_scan(self, desc, ctx):
         import io, contextlib
@@ -222,6 +281,8 @@ class C11(object):
     def execute(self, desc, ctx):
         if desc["entry"] == "SparseScan.cplabel":
             return self.exec_scan(desc, ctx)
+        if desc["entry"] == "labelimage.labelpeaks":
+            return self.exec_labelimage(desc, ctx)
         sim = ctx.sim
         ns, nf, th, cfg = desc["ns"], desc["nf"], desc["threshold"], desc["cfg"]
         im = np.array(desc["image"], np.float32).reshape(ns, nf)
@@ -375,7 +436,7 @@ class C11(object):
 
     def minimise(self, desc, viol, ctx):
         cls = viol["class"]
-        if desc["entry"] == "SparseScan.cplabel":
+        if desc["entry"] in ("SparseScan.cplabel", "labelimage.labelpeaks"):
             return desc
 
         def fails(d):
